@@ -28,9 +28,12 @@ CLAIM = dict(
     "at the normalised start, coordinate(v) = parent coordinate(v + start) for every v, voxel size unchanged, time/date/series/scalar carried), "
     "nest (any program of subregion / VoxelArray / CoordinateArray / time_slice / time_interval steps of ANY length keeps the image placed "
     "in the root with composed offsets; induction over the program), physical_eq_voxel_box, time_slice / time_interval bookkeeping, "
-    "stack_slice (stack then time_slice returns data, dates and relative times), append_offset_keeps_times (an explicit offset, 0 included, "
+    "stack_slice (stack then time_slice returns data, dates and relative times). DATA ON ARRAYS (DarsiaModel.ImageArr: pixel array = function from the raw "
+    "numpy index to a value tag; numpy index arithmetic of subregion/time_slice/time_interval/np.stack): extract_data_eq (for every root - scalar/vector, single/series - "
+    "and every extraction program: entry (t,v,c) of the result = root entry (root time index of slab t, v + composed offset, c)), extract_data_inv, append_data_eq, "
+    "stack_slice_data. append_offset_keeps_times (an explicit offset, 0 included, "
     "keeps the stored relative times also for dated images), time_interval_keeps_stored_times. The relative time of a slab is what the parent "
-    "stored (roots with dates AND independent stored times are covered), not a function of its date. Tie: differential correspondence on random programs "
+    "stored (roots with dates AND independent stored times are covered), not a function of its date. Tie: differential correspondence on random programs (metadata + slab index lists, AND the whole pixel array entry by entry against np.arange-coded payloads) "
     "(exact, dyadic geometries) + oracle on the implementation tracing every voxel back to its root voxel.",
     note="geometry on general (non-dyadic) floats is only covered by the oracle with a stated tolerance; Image.slice / reduce_axis are not part of C02; "
     "tuple-of-slices reaching beyond the image are clipped since the fix of Image.subregion (before: outside the property's quantifier).",
@@ -161,6 +164,20 @@ def decode_slabs(im):
 
 def root_multi(sp, rshape):
     return np.stack(np.unravel_index(sp.ravel(), rshape), axis=1).reshape(sp.shape + (len(rshape),))
+
+
+def arr_str(im):
+    """The whole pixel array as the model driver prints it (shape | every entry, C order)."""
+    if isinstance(im, Raised):
+        return repr(im)
+    a = np.asarray(im.img)
+    return " ".join(str(int(x)) for x in a.shape) + " | " + " ".join(str(int(x)) for x in a.ravel())
+
+
+def aline(line, vector):
+    """`prog/stack/append ...` request -> the array request `aprog/astack/aappend C ...`."""
+    op, rest = line.split(" ", 1)
+    return f"a{op} {2 if vector else 1} {rest}"
 
 
 def describe(im, roots):
@@ -487,7 +504,7 @@ def assembled_eval(d, ra, rb, off, rng=None, steps=None):
     acc = a.copy()
     rr = call(acc.append, b2.copy()) if off is None else call(acc.append, b2.copy(), off)
     if isinstance(rr, Raised):
-        return head, repr(rr), [], []
+        return head, repr(rr), [], [], repr(rr)
     fails = []
     ta, tb = as_list(a.time, True), as_list(b2.time, True)
     da, db = as_list(a.date, True), as_list(b2.date, True)
@@ -534,11 +551,11 @@ def assembled_eval(d, ra, rb, off, rng=None, steps=None):
             fails.append((f"C02:extraction:raises:{im!r}", f"valid extraction program on an assembled series raises {im!r}"))
         else:  # e.g. undated receiver + dated image: time_slice derives a time from the date with reference date None -> TypeError
             OUTSIDE[f"mixed-series-extraction-raises:{im!r}"] = OUTSIDE.get(f"mixed-series-extraction-raises:{im!r}", 0) + 1
-        return line, repr(im), fails, steps
+        return line, repr(im), fails, steps, repr(im)
     dsc = call(describe, im, roots)
     if not (any(n_ == 0 for n_ in im.img.shape[: im.space_dim]) or im.time_num == 0):
         fails += trace_check(d, acc, ra, im, True, slabpos)
-    return line, ("!undescribable" if isinstance(dsc, Raised) else dsc), fails, steps
+    return line, ("!undescribable" if isinstance(dsc, Raised) else dsc), fails, steps, arr_str(im)
 
 
 def alias_eval(d, rp, mode):
@@ -674,6 +691,9 @@ def run(ctx):
             else:
                 dsc = call(describe, final, {r["rid"]: r})
                 impl.append("!undescribable" if isinstance(dsc, Raised) else dsc)
+            # the pixel ARRAY itself, entry by entry, against the array model
+            lines.append(aline(line, r["vector"]))
+            impl.append(arr_str(final))
         if isinstance(final, Raised):
             bump("raised:" + repr(final))
             if malformed_at is None:
@@ -703,6 +723,8 @@ def run(ctx):
                                 ctx.count(("one-step", line))
                                 lines.append(line)
                                 impl.append(repr(sub) if isinstance(sub, Raised) else describe(sub, {1: r}))
+                                lines.append(aline(line, False))
+                                impl.append(arr_str(sub))
                                 if isinstance(sub, Raised):
                                     ctx.fail(f"C02:extraction:raises:{sub!r}", line, {"program": line, "root": r, "steps": [line.split(" ; ", 1)[1]]})
                                 else:
@@ -731,6 +753,8 @@ def run(ctx):
             else:
                 dsc = call(describe, res, {r["rid"]: r for r in rs})
                 impl.append("!undescribable" if isinstance(dsc, Raised) else dsc)
+            lines.append(aline(line, rs[0]["vector"]))
+            impl.append(arr_str(res))
     # series ASSEMBLED by append (offset None / 0 / 0.0 / non-zero; dated, undated, both, mixed), then extraction programs:
     # every extracted slab must carry exactly the time and date the assembled series stores for it
     for n in range(ctx.pick(120, 1500)):
@@ -745,8 +769,10 @@ def run(ctx):
         if isinstance(out, Raised):
             ctx.mark("CORR-BROKEN", {"correspondence": "assembled", "roots": [ra, rb], "error": repr(out.exc)})
             continue
-        line, dsc, fails, steps = out
+        line, dsc, fails, steps, adsc = out
         ctx.count(("assembled", line))
+        lines.append(aline(line, ra["vector"]))
+        impl.append(adsc)
         bump(f"assembled:{ra['tkind']}+{rb['tkind']}:offset={'None' if off is None else ('zero' if off == 0 else 'nonzero')}")
         lines.append(line)
         impl.append(dsc)
@@ -779,7 +805,7 @@ def replay(data):
     case = data.get("replay", data)
     want = case.get("signature", data.get("signature"))
     if case.get("kind") == "assembled":
-        line, dsc, fails, _ = assembled_eval(d, case["roots"][0], case["roots"][1], case["offset"], None, case["steps"])
+        line, dsc, fails, _, _ = assembled_eval(d, case["roots"][0], case["roots"][1], case["offset"], None, case["steps"])
         print(f"C02 replay {line}\n  result: {dsc}")
     elif case.get("kind") == "alias":
         fails = alias_eval(d, case["roots"][0], case["mode"])
